@@ -21,7 +21,10 @@ through the `…N` normal forms, because unfolding `x + 4294967296` definitional
   its write (items registered after the failure sweep, `queueDirectClosing`); uses the environment
   guard of `step` (`envOK_write`, `envOK_arm`: no successful `Write` / `SetReadDeadline` on a
   closed connection); `DR`: on a failed connection the reader is not parked in `Read`;
-  `Good` = `GR ∧ GD ∧ Rest ∧ DS ∧ DR`, `good_step`, `good_reachable`.
+  `Good` = `GR ∧ GD ∧ Rest ∧ DS ∧ DR`, `good_step`, `good_reachable`;
+* §7 frames that fail the connection after their own delivery (`Frame.fatal`: a server exception
+  in the response header or inside a multi-response): `finishFrame_fatal`, `readerAtN_fatal`,
+  `held_fatal_step` (the reader keeps such a frame in its hand until the connection is failed).
 -/
 namespace GV.Conn
 
@@ -208,7 +211,7 @@ theorem finishFrame_eq (s : St) (id : Nat) (it : Item) (f : Frame) :
     finishFrame s id it f =
       if ctxEnded s it then { s with reader := readerNext s, dropped := s.dropped ++ it.calls }
       else if f = .badHeader then s
-      else if f = .exception .connErr then
+      else if f.fatal then
         { failConn { s with delivered := s.delivered ++ frameDlv id it f, reader := .exited }
           with reader := .exited }
       else { s with delivered := s.delivered ++ frameDlv id it f, reader := readerNext s } := by
@@ -217,12 +220,20 @@ theorem finishFrame_eq (s : St) (id : Nat) (it : Item) (f : Frame) :
     by_cases h : c ∈ s.ctxDone
     · simp [finishFrame, ctxEnded, h]
     · cases f with
-      | exception r => cases r <;> simp [finishFrame, ctxEnded, h, frameDlv, deliverItem, readerNext] <;> rfl
-      | _ => simp [finishFrame, ctxEnded, h, frameDlv, deliverItem, readerNext] <;> rfl
+      | exception r =>
+        cases r <;> simp [finishFrame, ctxEnded, h, frameDlv, deliverItem, readerNext, Frame.fatal] <;> rfl
+      | perCall rs =>
+        cases hf : (Frame.perCall rs).fatal <;>
+          simp [finishFrame, ctxEnded, h, frameDlv, readerNext, hf]
+      | _ => simp [finishFrame, ctxEnded, h, frameDlv, deliverItem, readerNext, Frame.fatal] <;> rfl
   | multi cs =>
     cases f with
-    | exception r => cases r <;> simp [finishFrame, ctxEnded, frameDlv, deliverItem, readerNext] <;> rfl
-    | _ => simp [finishFrame, ctxEnded, frameDlv, deliverItem, readerNext] <;> rfl
+    | exception r =>
+      cases r <;> simp [finishFrame, ctxEnded, frameDlv, deliverItem, readerNext, Frame.fatal] <;> rfl
+    | perCall rs =>
+      cases hf : (Frame.perCall rs).fatal <;>
+        simp [finishFrame, ctxEnded, frameDlv, readerNext, hf]
+    | _ => simp [finishFrame, ctxEnded, frameDlv, deliverItem, readerNext, Frame.fatal] <;> rfl
 
 theorem dcount_frameDlv (id : Nat) (it : Item) (f : Frame) (c : Nat) (hf : f ≠ .badHeader) :
     dcount (frameDlv id it f) c = it.calls.count c := by
@@ -4177,5 +4188,235 @@ theorem quiescent_iff {s : St} (hq : quiescent s = true) :
     s.sends = [] ∧ s.offered = [] ∧ (s.reader = .reading ∨ s.reader = .exited) := by
   simp only [quiescent, Bool.and_eq_true, Bool.or_eq_true, beq_iff_eq, List.isEmpty_iff] at hq
   exact ⟨hq.1.1, hq.1.2, hq.2⟩
+
+/-! ## §7 a frame that fails the connection after its own delivery (`Frame.fatal`): a server
+exception in the response header, or inside a decoded multi-response -/
+
+theorem fatal_ne_badHeader {f : Frame} (h : f.fatal = true) : f ≠ .badHeader := by
+  intro e; subst e; simp [Frame.fatal] at h
+
+theorem ctxEnded_multi (s : St) (cs : List Nat) : ctxEnded s (.multi cs) = false := rfl
+
+/-- What the reader does with such a frame on a live connection: the calls of the item get what
+the frame says about them, then `fail` runs — `done`, every other registered item and every
+queued call completed with a connection-level error, the reader gone. -/
+theorem finishFrame_fatal {s : St} {id : Nat} {it : Item} {f : Frame}
+    (hc : ctxEnded s it = false) (hf : f.fatal = true) (hd : s.done = false) :
+    finishFrame s id it f =
+      { s with done := true, sent := [], offered := [],
+               delivered := s.delivered ++ frameDlv id it f ++ failDlv s, reader := .exited,
+               writerExited := if s.writerBusy then s.writerExited else true } := by
+  rw [finishFrame_eq, if_neg (by simp [hc]), if_neg (fatal_ne_badHeader hf), if_pos hf, failConn_eq]
+  simp [hd, failDlv, List.append_assoc]
+
+/-- the reader's count-down followed by such a frame (new counter value `n` abstract) -/
+theorem readerAtN_fatal {s : St} {n id : Nat} {it : Item} {f : Frame}
+    (hc : ctxEnded s it = false) (hf : f.fatal = true) (hd : s.done = false) :
+    readerAtN s n id it f =
+      if n = 0 then { s with inFlight := n, reader := .clearing id it f }
+      else
+      { s with inFlight := n, done := true, sent := [], offered := [],
+               delivered := s.delivered ++ frameDlv id it f ++ failDlv s, reader := .exited,
+               writerExited := if s.writerBusy then s.writerExited else true } := by
+  simp only [readerAtN]
+  split
+  · rfl
+  · rw [finishFrame_fatal (s := { s with inFlight := n }) hc hf hd]
+    rfl
+
+/-- … and on any connection it leaves the connection failed. -/
+theorem done_finishFrame_fatal {s : St} {id : Nat} {it : Item} {f : Frame}
+    (hc : ctxEnded s it = false) (hf : f.fatal = true) : (finishFrame s id it f).done = true := by
+  rw [finishFrame_eq, if_neg (by simp [hc]), if_neg (fatal_ne_badHeader hf), if_pos hf]
+  exact done_failConn _
+
+theorem mem_unique_key {l : List (Nat × Item)} (hnd : (l.map (·.1)).Nodup) {p q : Nat × Item}
+    (hp : p ∈ l) (hq : q ∈ l) (e : p.1 = q.1) : p = q := by
+  induction l with
+  | nil => cases hp
+  | cons a l ih =>
+    simp only [List.map_cons, List.nodup_cons] at hnd
+    rcases List.mem_cons.1 hp with hp | hp <;> rcases List.mem_cons.1 hq with hq | hq
+    · rw [hp, hq]
+    · exact absurd (List.mem_map_of_mem (f := (·.1)) hq) (by rw [← e, hp]; exact hnd.1)
+    · exact absurd (List.mem_map_of_mem (f := (·.1)) hp) (by rw [e, hq]; exact hnd.1)
+    · exact ih hnd.2 hp hq
+
+/-- a call registered under another id than `id` is still registered after `eraseSent s id` -/
+theorem outstanding_erase {s : St} {id : Nat} {it : Item} {c : Nat}
+    (hnd : (s.sent.map (·.1)).Nodup) (hl : lookupSent s id = some it)
+    (hc : c ∈ outstanding s) (hn : c ∉ it.calls) : c ∈ outstanding (eraseSent s id) := by
+  simp only [outstanding, List.mem_flatMap] at hc ⊢
+  obtain ⟨p, hp, hcp⟩ := hc
+  refine ⟨p, ?_, hcp⟩
+  simp only [eraseSent, List.mem_filter, bne_iff_ne, ne_eq]
+  refine ⟨hp, fun e => hn ?_⟩
+  have := mem_unique_key hnd hp (lookupSent_mem hl) e
+  rw [this] at hcp; exact hcp
+
+theorem mem_failDlv_sent {s : St} {c : Nat} (hc : c ∈ outstanding s) :
+    Dlv.mk c .connErr none ∈ failDlv s := by
+  simp only [outstanding, List.mem_flatMap] at hc
+  obtain ⟨p, hp, hcp⟩ := hc
+  exact List.mem_append_left _ (List.mem_flatMap.2 ⟨p, hp, List.mem_map.2 ⟨c, hcp, rfl⟩⟩)
+
+theorem mem_failDlv_offered {s : St} {c : Nat} (hc : c ∈ s.offered) :
+    Dlv.mk c .connErr none ∈ failDlv s :=
+  List.mem_append_right _ (List.mem_map.2 ⟨c, hc, rfl⟩)
+
+/-- The queue hand-off never makes the reader forget a fatal frame it holds: it keeps holding it
+(parked) or the connection has been failed. -/
+theorem wakeM_fatal (n : Nat) {s : St} {id : Nat} {cs : List Nat} {f : Frame}
+    (hh : s.reader.held = some (id, .multi cs, f)) (hf : f.fatal = true) :
+    (wakeM n s).reader.held = some (id, .multi cs, f) ∨ (wakeM n s).done = true := by
+  induction n generalizing s with
+  | zero => exact Or.inl hh
+  | succ n ih =>
+    simp only [wakeM]
+    split
+    · exact Or.inl hh
+    · split
+      · exact Or.inl hh
+      · split
+        · split
+          · exact ih (s := senderAdd _ _) hh
+          · split
+            · exact ih (s := senderAtM _ _) (by rw [reader_senderAtM]; exact hh)
+            · exact ih (s := { s with mWait := _ }) hh
+        · exact ih (s := { s with mWait := _ }) hh
+      · split
+        · rename_i id' it' f' hr
+          have e : (id', it', f') = (id, Item.multi cs, f) := by
+            rw [hr] at hh; simpa [Reader.held] using hh
+          injection e with e1 e2; injection e2 with e2 e3
+          subst e1; subst e2; subst e3
+          rw [readerAtM_eq]
+          generalize (_ + uint32 - 1) % uint32 = k
+          simp only [readerAtN]
+          split
+          · exact ih (s := { s with mWait := _, inFlight := _, reader := .clearing _ _ _ }) rfl
+          · exact Or.inr ((ext_wakeM n _).done (done_finishFrame_fatal (ctxEnded_multi _ _) hf))
+        · exact ih (s := { s with mWait := _ }) hh
+
+theorem releaseM_fatal {s : St} {id : Nat} {cs : List Nat} {f : Frame}
+    (hh : s.reader.held = some (id, .multi cs, f)) (hf : f.fatal = true) :
+    (releaseM s).reader.held = some (id, .multi cs, f) ∨ (releaseM s).done = true :=
+  wakeM_fatal _ hh hf
+
+theorem held_reading {s : St} {x : Nat × Item × Frame} (hh : s.reader.held = some x)
+    (hr : s.reader = .reading) : False := by
+  rw [hr] at hh; cases hh
+
+/-- From one event to the next the reader either still holds the multi whose response carried the
+server exception, or the connection has been failed (every action of the model). -/
+theorem held_fatal_step {s s' : St} {a : Act} {id : Nat} {cs : List Nat} {f : Frame}
+    (hh : s.reader.held = some (id, .multi cs, f)) (hf : f.fatal = true)
+    (hs : step s a = some s') :
+    s'.reader.held = some (id, .multi cs, f) ∨ s'.done = true := by
+  cases a with
+  | queueBatched c =>
+    left
+    simp only [step] at hs
+    repeat' (split at hs)
+    all_goals first
+      | (injection hs with hs; subst hs; first | exact hh | (rw [reader_writerLoop]; exact hh))
+      | cases hs
+  | queueBatchedUnsendable c =>
+    left
+    simp only [step] at hs
+    repeat' (split at hs)
+    all_goals first
+      | (injection hs with hs; subst hs; first | exact hh | (rw [reader_writerLoop]; exact hh))
+      | cases hs
+  | queueDirect c =>
+    left
+    simp only [step] at hs
+    repeat' (split at hs)
+    all_goals first
+      | (injection hs with hs; subst hs; first | exact hh | (rw [reader_startSend]; exact hh))
+      | cases hs
+  | queueDirectClosing c =>
+    left
+    simp only [step] at hs
+    repeat' (split at hs)
+    all_goals first
+      | (injection hs with hs; subst hs;
+         first | exact hh | (rw [reader_startSend, held_failConn]; exact hh))
+      | cases hs
+  | queueUnsendable c =>
+    left
+    simp only [step] at hs
+    repeat' (split at hs)
+    all_goals first
+      | (injection hs with hs; subst hs; exact hh)
+      | cases hs
+  | cancel c =>
+    left
+    simp only [step] at hs
+    split at hs
+    · cases hs
+    · injection hs with hs; subst hs; exact hh
+  | write w last r =>
+    left
+    have hc := (envOK_write hs).2
+    simp only [writeCore] at hc
+    repeat' (split at hc)
+    all_goals first
+      | (injection hc with hc; subst hc;
+         first
+           | exact hh
+           | (rw [reader_finishSend, held_sendFailed, reader_releaseWriteM]; exact hh)
+           | (show (releaseWriteM s).reader.held = _; rw [reader_releaseWriteM]; exact hh)
+           | (rw [reader_senderAtM, reader_releaseWriteM]; exact hh))
+      | cases hc
+  | arm w r =>
+    have hc := (envOK_arm hs).2
+    simp only [armCore] at hc
+    repeat' (split at hc)
+    all_goals first
+      | (injection hc with hc; subst hc;
+         first
+           | exact releaseM_fatal (by rw [reader_finishSend]; exact hh) hf
+           | exact releaseM_fatal (by rw [reader_finishSend, held_sendFailed]; exact hh) hf)
+      | cases hc
+  | read id' f' =>
+    simp only [step] at hs
+    split at hs
+    · cases hs
+    · rename_i hr
+      exact (held_reading hh (by simpa using hr)).elim
+  | readErr =>
+    simp only [step] at hs
+    split at hs
+    · cases hs
+    · rename_i hr
+      exact (held_reading hh (by simpa using hr)).elim
+  | timeout =>
+    simp only [step] at hs
+    split at hs
+    · cases hs
+    · rename_i hr
+      simp only [Bool.or_eq_true, not_or] at hr
+      exact (held_reading hh (by simpa using hr.1)).elim
+  | clear r =>
+    right
+    simp only [step] at hs
+    split at hs
+    · rename_i id' it' f' hr
+      have e : (id', it', f') = (id, Item.multi cs, f) := by
+        rw [hr] at hh; simpa [Reader.held] using hh
+      injection e with e1 e2; injection e2 with e2 e3
+      subst e1; subst e2; subst e3
+      split at hs
+      · injection hs with hs; subst hs
+        exact (ext_releaseM _).done (done_finishFrame_fatal (ctxEnded_multi _ _) hf)
+      · injection hs with hs; subst hs
+        exact (ext_releaseM _).done (done_failConn _)
+    · cases hs
+  | close =>
+    left
+    simp only [step] at hs
+    injection hs with hs; subst hs
+    rw [held_failConn]; exact hh
 
 end GV.Conn
